@@ -43,10 +43,18 @@ func BuildTagged(r ReqSpec) (tl.Object, reflect.Type) {
 
 // Expected renders the value a call with this tag must return (same rendering as renderTagged).
 // bigResult: one tag in five gets a large answer (tens of kilobytes: many TCP segments, many reads of a gzip stream)
-func bigResult(tag int) bool { return tag%5 == 2 }
+func bigResult(tag int) bool { return tag%5 == 2 || hugeResult(tag) }
+
+// hugeResult: one tag in thirteen gets, if it asks for an object, more than a mebibyte (the largest file part a
+// server hands out, plus its envelope)
+func hugeResult(tag int) bool { return tag%13 == 12 }
 
 func bigObjectTail(tag int) []byte {
-	b := make([]byte, 20000+(tag%13)*1000)
+	n := 20000 + (tag%13)*1000
+	if hugeResult(tag) {
+		n = 1<<20 + 4*(tag%997)
+	}
+	b := make([]byte, n)
 	x := uint32(tag)*2654435761 + 1
 	for i := range b {
 		x = x*1664525 + 1013904223
@@ -598,6 +606,7 @@ func (e *Env) runRPC() error {
 				continue
 			}
 			var items []*refsrv.Item
+			var stamped []*refsrv.Prepared
 			for _, it := range step.Items {
 				st.mu.Lock()
 				var p *pendingReq
@@ -629,11 +638,20 @@ func (e *Env) runRPC() error {
 				e.Srv.LogNote("answer", c, p.req.MsgID, fmt.Sprintf("tag=%d gzip=%v container=%v err=%d", it.Tag, it.Gzip, step.Container, it.ErrCode))
 				if step.Container {
 					items = append(items, &refsrv.Item{Body: body, ContentRelated: true})
+				} else if step.ReverseWire {
+					pc := c
+					if step.Server == "" && p.conn != nil && !p.conn.Closed() {
+						pc = p.conn
+					}
+					stamped = append(stamped, pc.Prepare(body, true))
 				} else if step.Server == "" && p.conn != nil && !p.conn.Closed() {
 					p.conn.Send(body, true) // where the request arrived
 				} else {
 					c.Send(body, true)
 				}
+			}
+			for k := len(stamped) - 1; k >= 0; k-- {
+				stamped[k].Write()
 			}
 			if step.Container && len(items) > 0 {
 				if step.Nested {
